@@ -107,14 +107,16 @@ P["C18"] = dict(level="exploration", design="DESIGN.md 7.5", assumptions=["messa
  text="All three sender/chooser pairs between two tasks, N=2..64, every index reachable by the seed, message vectors incl. the identity and repeated messages: the chooser's output must equal M[sigma]; the chooser's secrets are recomputed from a copy of its coin stream (verified against x=g^a, y=g^b on the wire) and must not open any other ciphertext; blinding values must be fresh per message; a scripted first move with coinciding, non-member, 0, p or >=p elements and a relay replacing a first-move line must make the sender refuse without emitting ciphertexts.",
  note="trusted: harness recomputation of the chooser's view")
 
-P["C20"] = dict(level="fault_enumeration", design="DESIGN.md 7.9", assumptions=["scope: clock-dependent validity of detached binary document signatures under skew and jumps of the verifier's clock, and tamper / truncate / re-order / drop faults on artefacts between a signer-encryptor node and a verifier-decryptor node; no GnuPG cross-check, no key or user-ID certifications, RSA-2048 / DSA-2048 / ECDSA P-256 test keys, CFB+MDC and AEAD (OCB, EAX) with AES-256",
+P["C20"] = dict(level="fault_enumeration", design="DESIGN.md 7.9", assumptions=["scope: clock-dependent validity of detached document signatures under skew and jumps of the verifier's clock; tamper / truncate / re-order / drop faults on artefacts (signatures, key blocks with certification and subkey binding, SEIPD and AEAD messages, PKESK packets, stored private key blocks, ASCII armor, documents in files) between a signer-encryptor node and a verifier-decryptor node; fixed RSA-2048 / DSA-2048 / ECDSA P-256 / Ed25519 signing keys and RSA / ElGamal-2048 / ECDH P-256 encryption keys; CFB+MDC and AEAD (OCB, EAX) with AES-256",
+   "GnuPG cross-check: document signatures only, with the gpgv binary of the image as a child process (skipped and counted when absent); not simulated, its outcome is a function of the seeded artefacts",
+   "not driven: revocations, user attributes, key expiry through self-signatures, compressed data, passphrase-encrypted messages (the library has no SKESK encoder), V5 keys and signatures",
    "'the signature value' means the left-16 octets and the MPI payloads; a flipped bit in an MPI bit count or in the unhashed sub-packet area is recorded, not asserted",
    "a literal data packet without data is refused by the library's decoder by design (observation O3): message plaintexts have at least one octet",
    "DSA/ECDSA nonces come from inside libgcrypt (no seam): only outcomes enter the fingerprint, position-dependent record-only faults are used with RSA signatures only"],
  quick=[leg("pgp","plain",40000,16,64,60), leg("pgp","asan",20000,10,64,120)],
  thorough=[leg("pgp","plain",3000000,16,512,60,600), leg("pgp","asan",600000,10,256,120,600)],
- text="Two nodes with their own simulated clocks: the signer/encryptor emits artefacts with the library's encoders, the artefact channel applies at most one fault, the verifier/decryptor parses and checks. Signatures: the verifier's clock is placed on every boundary of the validity rules (expiry-1/expiry/expiry+1, 25 h +-1 s in the future, signature older than its key, clock jump between validity and integrity check) and CheckValidity is compared with a reference model of the rules; a bit flipped in any hashed field, in the signature value, in the document, or a check against another key must not verify; the signature-packet body is truncated at every offset with the length re-encoded. Messages: SEIPD+MDC and AEAD (two modes, three chunk sizes, lengths around chunk boundaries) must decrypt to the plaintext, and a flipped ciphertext or tag bit, truncation, dropped tag, exchanged or removed chunks, altered associated data or nonce, a wrong session key and an unprotected (SED) packet must make decryption fail.",
- note="trusted: reference model of the validity rules; libgcrypt")
+ text="Two nodes with their own simulated clocks: the signer/encryptor emits artefacts with the library's encoders, the artefact channel applies at most one fault, the verifier/decryptor parses and checks. Signatures: the verifier's clock is placed on every boundary of the validity rules (expiry-1/expiry/expiry+1, 25 h +-1 s in the future, signature older than its key, clock jump between validity and integrity check) and CheckValidity is compared with a reference model of the rules; a bit flipped in any hashed field, in the signature value, in the document, or a check against another key must not verify; the signature-packet body is truncated at every offset with the length re-encoded. Messages: SEIPD+MDC and AEAD (two modes, three chunk sizes, lengths around chunk boundaries) must decrypt to the plaintext, and a flipped ciphertext or tag bit, truncation, dropped tag, exchanged or removed chunks, altered associated data or nonce, a wrong session key and an unprotected (SED) packet must make decryption fail. Added later: whole artefacts split into packets and damaged structurally (body truncated / extended with re-encoded length at every offset, packets dropped, duplicated, exchanged, key blocks recomposed from their own packets), the same behind ASCII armor with damaged text, session keys encrypted to RSA / ElGamal / ECDH keys, private key blocks stored under a passphrase, documents in files with damaged files, a sub-packet appended to the unhashed area, and gpgv as a second verifier.",
+ note="trusted: reference model of the validity rules; libgcrypt; gpgv for the cross-check")
 
 def main():
     checks = {}
